@@ -8,7 +8,14 @@
                           every step with the name it uses; the bind step as bind:<refuse>:<name>
      S                 -> sizes: sun_path, strlcpy size, bound of the length test, longest lock name
      C k conf.. ; tok.. ; name..  -> byte-string model: k processes, conf = hexsock,hexpid,hexseed each; schedule as
-                          for R; then for every queried name (hex): <name>=<-|reg|sock>:<listener>:<lock holder>:<written by> *)
+                          for R; then for every queried name (hex): <name>=<-|reg|sock>:<listener>:<lock holder>:<written by>
+     X k ; prog.. ; tok..  -> as R, but over the given program text (step alphabet of P, plus getlk): StartSearchModel.xrun;
+                          appends bound=<processes alive and listening on a socket they hold>
+     Y k ; prog.. ; tok..  -> as X, but labels that are not enabled are skipped; appends " ; <schedule taken>"
+     B k limit maxpre avoid_known ; prog..  -> search the interleavings (Step, Term; no SIGKILL) of k copies of the given
+                          program for a state with two bound processes, fewest preemptions first, at most maxpre; avoid_known=1:
+                          never take the F-C15-unlink transition (known_overlap).  Prints
+                          "B found preempt=<n> states=<m> ; tok.." | "B none states=<m>" | "B limit states=<m>" *)
 open Model
 open Conv
 
@@ -31,6 +38,72 @@ let label_of tok =
 let rec run_toks s i = function
   | [] -> Ok s
   | t :: r -> (match run s [label_of t] with Some s' -> run_toks s' (i + 1) r | None -> Error i)
+
+let xprim_of tok =
+  match tok with
+  | "getlk" -> XGetLk
+  | "read_seed" -> XP ReadSeed | "open_lock" -> XP OpenLock | "fstat_lock" -> XP FstatLock | "setlk" -> XP SetLk
+  | "unlink:lock" -> XP (Unlink NLock) | "unlink:sock" -> XP (Unlink NSock) | "unlink:pid" -> XP (Unlink NPid)
+  | "unlink:seed" -> XP (Unlink NSeed) | "bind" -> XP Bind | "listen" -> XP Listen | "open_pid" -> XP OpenPid
+  | "write_pid" -> XP WritePid | "serve" -> XP Serve | "close_sock" -> XP CloseSock | "close_lock" -> XP CloseLock
+  | "open_seed" -> XP OpenSeed | "write_seed" -> XP WriteSeed | "exit" -> XP Exit
+  | _ -> failwith ("program token " ^ tok)
+
+let obs_line tag k s =
+  let procs = List.init k (fun p ->
+    let ((st, pc), srv) = obs_proc s (nat_of_int p) in
+    Printf.sprintf "%s/%d/%d" (status_s (int_of_nat st)) (int_of_nat pc) (b srv)) in
+  let names = List.map2 (fun n o -> n ^ "=" ^ opt o) ["lock"; "sock"; "pid"; "seed"] (obs_names s) in
+  Printf.sprintf "%s %s | %s | pidfile=%s listener=%s lockholder=%s seedby=%s" tag
+    (String.concat " " procs) (String.concat " " names)
+    (opt (pid_content s)) (opt (sock_listener s)) (opt (lock_holder s)) (opt (seed_content s))
+
+let tok_of = function Step p -> "s" ^ string_of_int (int_of_nat p) | Term p -> "t" ^ string_of_int (int_of_nat p)
+                    | Crash p -> "c" ^ string_of_int (int_of_nat p)
+
+(* 0-1 breadth-first search, cost = number of preemptions (switching away from a process that could still step) *)
+let search k limit maxpre avoid pg =
+  let kn = nat_of_int k in
+  let key s cur = String.concat "," (List.map (fun n -> string_of_int (int_of_nat n)) (state_key s kn)) ^ "|" ^ string_of_int cur in
+  let seen : (string, int) Hashtbl.t = Hashtbl.create 100003 in
+  let dq = ref ([] : (state * int * int * label list) list) and back = ref [] in   (* front list, back list *)
+  let push_front x = dq := x :: !dq and push_back x = back := x :: !back in
+  let pop () = match !dq with
+    | x :: r -> dq := r; Some x
+    | [] -> (match List.rev !back with [] -> None | x :: r -> dq := r; back := []; Some x) in
+  let count = ref 0 in
+  let result = ref None in
+  push_front (init, -1, 0, []);
+  (try
+    let continue = ref true in
+    while !continue do
+      match pop () with
+      | None -> continue := false
+      | Some (s, cur, cost, path) ->
+          let kk = key s cur in
+          (match Hashtbl.find_opt seen kk with
+           | Some c when c <= cost -> ()
+           | _ ->
+               Hashtbl.replace seen kk cost;
+               incr count;
+               if two_bound s kn then (result := Some (cost, List.rev path); raise Exit);
+               if !count >= limit then raise Exit;
+               let started p = let ((st, _), _) = obs_proc s (nat_of_int p) in int_of_nat st <> 0 in
+               let can_step p = xstep pg s (Step (nat_of_int p)) <> None in
+               let cur_enabled = cur >= 0 && can_step cur in
+               for p = 0 to k - 1 do
+                 let np = nat_of_int p in
+                 if started p || p = 0 || started (p - 1) then begin
+                   let c' = if p <> cur && cur_enabled then cost + 1 else cost in
+                   let go l s' = if c' > maxpre then () else if c' = cost then push_front (s', p, c', l :: path) else push_back (s', p, c', l :: path) in
+                   (if not (avoid && known_overlap pg s kn np) then
+                      match xstep pg s (Step np) with Some s' -> go (Step np) s' | None -> ());
+                   (match xstep pg s (Term np) with Some s' -> go (Term np) s' | None -> ())
+                 end
+               done)
+    done
+  with Exit -> ());
+  (!result, !count)
 
 let cprim_s = function
   | CReadSeed nm -> "read_seed:" ^ hex nm | COpenPid nm -> "open_pid:" ^ hex nm | COpenSeed nm -> "open_seed:" ^ hex nm
@@ -58,6 +131,30 @@ let line l =
       Printf.printf "N %s\n" (String.concat " " (List.map cprim_s (cprog { c_sock = unhex a; c_pid = unhex b; c_seed = unhex c })))
   | ["S"] -> Printf.printf "S sun_path=%d copy_size=%d len_bound=%d lock_name_max=%d\n"
                (int_of_n sun_path_cap) (int_of_n sock_copy_size) (int_of_n sock_len_bound) (int_of_n lock_name_max)
+  | ("X" | "Y" as cmd) :: k :: rest ->
+      let k = int_of_string k in
+      (match split_semi [] [] rest with
+       | [[]; ptoks; toks] ->
+           let pg = List.map xprim_of ptoks in
+           (* Y: labels that are not enabled are skipped; the schedule actually taken is printed first *)
+           let rec go s i taken = function
+             | [] -> Ok (s, List.rev taken)
+             | t :: r -> (match xrun pg s [label_of t] with
+                          | Some s' -> go s' (i + 1) (t :: taken) r
+                          | None -> if cmd = "Y" then go s (i + 1) taken r else Error i) in
+           (match go init 0 [] toks with
+            | Error i -> Printf.printf "X blocked %d\n" i
+            | Ok (s, taken) ->
+                let bd = List.filter (fun p -> bound s (nat_of_int p)) (List.init k (fun p -> p)) in
+                Printf.printf "%s bound=%s%s\n" (obs_line cmd k s) (String.concat "," (List.map string_of_int bd))
+                  (if cmd = "Y" then " ; " ^ String.concat " " taken else ""))
+       | _ -> Printf.printf "? %s\n" l)
+  | "B" :: k :: limit :: maxpre :: avoid :: ";" :: ptoks ->
+      let pg = List.map xprim_of ptoks in
+      (match search (int_of_string k) (int_of_string limit) (int_of_string maxpre) (avoid = "1") pg with
+       | (Some (cost, sched), n) ->
+           Printf.printf "B found preempt=%d states=%d ; %s\n" cost n (String.concat " " (List.map tok_of sched))
+       | (None, n) -> Printf.printf "B %s states=%d\n" (if n >= int_of_string limit then "limit" else "none") n)
   | "C" :: k :: rest ->
       let k = int_of_string k in
       (match split_semi [] [] rest with
